@@ -547,6 +547,32 @@ pub fn gen_c15(out: &mut dyn Write, thorough: bool, seed: u64) {
             }
         }
     }
+    // runs of one kind of character with lengths around the multiples of 8 (word-at-a-time and block-wise scans), directly
+    // followed by an extending character, at the text start and behind a cluster of another kind
+    {
+        let extenders = ["\u{301}", "\u{fe0f}\u{20e3}", "\u{200d}", "\u{3099}", "\u{fe0f}", "\u{1f3fb}", "\r\n", "\n"];
+        let runs: &[usize] = if thorough { &[1, 7, 8, 9, 15, 16, 17, 24, 31, 32, 33, 64] } else { &[7, 8, 9, 16, 24] };
+        let mut k = 0usize;
+        for &len in runs {
+            for fill in ["a", "7", "あ", "e\u{301}"] {
+                for prefix in ["", "漢", "👨\u{200d}👩", "\r"] {
+                    k += 1;
+                    if !thorough && fill != "a" && k % 3 != 0 {
+                        continue;
+                    }
+                    let ext = extenders[k % extenders.len()];
+                    let text = format!("{prefix}{}{ext}b", fill.repeat(len));
+                    let n = text.chars().count();
+                    let labels: String = std::iter::repeat(['W', 'U', 'N'][k % 3]).take(n - 1).collect();
+                    let pre = format!("Fraw:{},setbs:{}", hexs(&text), labels);
+                    let cl = cluster_lengths(&text).iter().map(|x| x.to_string()).collect::<Vec<_>>().join(".");
+                    writeln!(out, "S {pre},filter:gc:{cl},obs:TYBKG c15").unwrap();
+                    writeln!(out, "S {pre},filter:lb,obs:TYBKG c15").unwrap();
+                    writeln!(out, "S {pre},filter:ws:{},obs:TYBKG c15", 1 + k % 6).unwrap();
+                }
+            }
+        }
+    }
     let count = if thorough { 60000 } else { 1200 };
     for _ in 0..count {
         let text = grapheme_text(&mut r, 8);
